@@ -46,6 +46,207 @@ def node(w, hist, cfg, res):
     return n, len(hist) >= 2, viol
 
 
+# ----------------------------------------------- joins that are refused
+
+class JoinWorld:
+    """Two databases whose connections share ONE transaction manager (in
+    explicit or implicit mode).  A modification can be refused by the
+    transaction machinery - outside a transaction in explicit mode, or while
+    a failed transaction has not been aborted yet - and must then leave the
+    object and the connection as they were: later transactions commit and
+    abort as usual."""
+
+    def __init__(self, explicit):
+        import transaction
+        env.reset_globals()
+        from mc import dbworld, hclasses
+        dbworld.own_hash_order()
+        MS = env.mod('ZODB.MappingStorage').MappingStorage
+        DB = env.mod('ZODB.DB').DB
+        self.explicit = explicit
+        self.dbs = {n: DB(MS(n)) for n in 'ab'}
+        self.violations = []
+        self.dead = False
+        self.vcount = 0
+        self.committed = {}
+        for n, db in self.dbs.items():
+            tm0 = transaction.TransactionManager()
+            c0 = db.open(tm0)
+            o = hclasses.P()
+            o.v = self.newval()
+            c0.root()['o'] = o
+            env.CLOCK.now += 1
+            tm0.commit()
+            c0.close()
+            self.committed[n] = o.v
+        self.current = dict(self.committed)
+        self.tm = transaction.TransactionManager(explicit=explicit)
+        self.conns = {n: db.open(self.tm) for n, db in self.dbs.items()}
+        self.objs = {}
+        if explicit:
+            self.tm.begin()
+        for n, c in self.conns.items():
+            self.objs[n] = c.root()['o']
+            self.objs[n].v
+        self.tm.abort()
+        self.state = 'none' if explicit else 'active'
+        self.otm = transaction.TransactionManager()
+        self.obs = {n: db.open(self.otm) for n, db in self.dbs.items()}
+        self.nsteps = 0
+
+    def newval(self):
+        self.vcount += 1
+        return self.vcount
+
+    def close(self):
+        try:
+            self.tm.abort()
+            self.otm.abort()
+            for db in self.dbs.values():
+                db.close()
+        except Exception:
+            pass
+
+    def bad(self, c, s, d):
+        self.violations.append((c, s, d))
+
+    def enabled(self):
+        ops = []
+        if self.explicit and self.state == 'none':
+            ops.append(('begin',))
+        ops += [('mod', 'a'), ('mod', 'b')]
+        if self.state == 'active':
+            ops += [('commit',), ('commit-fail',)]
+        if self.state in ('active', 'failed'):
+            ops.append(('abort',))
+        return ops
+
+    def apply(self, op):
+        from transaction.interfaces import (NoTransaction,
+                                            TransactionFailedError)
+        k = op[0]
+        env.CLOCK.now += 1
+        self.nsteps += 1
+        idle = 'none' if self.explicit else 'active'
+        try:
+            if k == 'begin':
+                self.tm.begin()
+                self.state = 'active'
+            elif k == 'mod':
+                n = op[1]
+                v = self.newval()
+                want = {'none': NoTransaction,
+                        'failed': TransactionFailedError}.get(self.state)
+                try:
+                    self.objs[n].v = v
+                    got = None
+                except (NoTransaction, TransactionFailedError) as e:
+                    got = type(e)
+                if got is not want:
+                    self.bad('join', 'mod-%s:%s-instead-of-%s' % (
+                        self.state, getattr(got, '__name__', 'accepted'),
+                        getattr(want, '__name__', 'accepted')), dict(op=op))
+                    self.dead = True
+                    return
+                if want is None:
+                    self.current[n] = v
+            elif k == 'commit':
+                self.tm.commit()
+                self.committed = dict(self.current)
+                self.state = idle
+            elif k == 'commit-fail':
+                self.tm.get().join(connworld.FailingRM('vote'))
+                try:
+                    self.tm.commit()
+                    self.bad('join', 'failing-commit-succeeded', {})
+                    self.dead = True
+                    return
+                except RuntimeError:
+                    pass
+                self.current = dict(self.committed)
+                self.state = 'failed'
+            elif k == 'abort':
+                self.tm.abort()
+                self.current = dict(self.committed)
+                self.state = idle
+        except Exception as e:      # noqa: B902
+            self.bad('error', 'join:%s:%s' % (k, type(e).__name__),
+                     dict(op=op, error=repr(e)[:200]))
+            self.dead = True
+            return
+        self.check()
+
+    def check(self):
+        from mc.battery import Exc, call
+        # the observer sees the committed values
+        self.otm.abort()
+        for n, c in self.obs.items():
+            r = call(lambda: c.root()['o'].v)
+            if r != self.committed[n]:
+                self.bad('isolated', 'join:observer', dict(
+                    db=n, expected=self.committed[n], got=repr(r)))
+        # the working connections show the current values while a
+        # transaction is active, and are not dirty otherwise
+        for n, o in self.objs.items():
+            if self.state == 'active':
+                r = call(lambda: o.v)
+                if r != self.current[n]:
+                    self.bad('state', 'join:wrong-value', dict(
+                        db=n, expected=self.current[n], got=repr(r)))
+            elif o._p_changed:
+                self.bad('flags', 'join:dirty-outside-transaction',
+                         dict(db=n, state=self.state))
+        # a connection that takes part in no transaction can be closed
+        if self.state == 'none':
+            for n, c in self.conns.items():
+                if c._needs_to_join is False:
+                    self.bad('flags', 'join:joined-without-transaction',
+                             dict(db=n))
+
+
+def join_subtree(explicit, prefix, depth):
+    from mc import schedx
+    env.install()
+    res = schedx._new_res()
+    seen = set()
+
+    def dfs(hist):
+        w = JoinWorld(explicit)
+        try:
+            for op in hist:
+                w.apply(op)
+                if w.dead:
+                    break
+            res['cov']['traces_validated_against_impl'] += 1
+            res['cov']['transitions'] += len(hist)
+            res['cov']['evaluations'] += 1 + len(hist)
+            res['cov']['states'] += 1
+            if any(o[0] == 'mod' for o in hist):
+                res['cov']['distinct_nontrivial'] += 1
+            if hist:
+                key = 'join:%s:%s' % (hist[-1][0], w.state)
+                res['outcomes'][key] = res['outcomes'].get(key, 0) + 1
+            if w.violations:
+                for c, s, d in w.violations:
+                    fs = 'C11.%s:%s' % (c, s)
+                    if fs not in seen:
+                        seen.add(fs)
+                        res['violations'].append((
+                            'C11.' + c, fs, dict(join=dict(
+                                explicit=explicit,
+                                history=[list(o) for o in hist])), d, 1))
+                return
+            if len(hist) >= depth or w.dead:
+                return
+            ops = w.enabled()
+        finally:
+            w.close()
+        for op in ops:
+            dfs(hist + [op])
+    dfs([tuple(o) for o in prefix])
+    return res
+
+
 def run(rep, tier, seed, workers):
     depth = 6 if tier == 'quick' else 7
     rep.rule = (
@@ -57,7 +258,12 @@ def run(rep, tier, seed, workers):
         'ownership, value and change flags of every tracked object, root '
         'membership, the set and tid of the records stored by the last '
         'commit, and what an observer connection sees are compared with the '
-        'model; non-trivial = sequence of at least two steps')
+        'model; plus all sequences over {begin, modify a / b, commit, commit '
+        'failing in another participant\'s vote, abort} for two databases '
+        'whose connections share one transaction manager, explicit and '
+        'implicit mode, where a modification outside a transaction or '
+        'inside a failed one must be refused and change nothing; '
+        'non-trivial = sequence of at least two steps')
     states = 0
     for kind in ('M', 'F'):
         cfg = dict(prop='C11', kind=kind)
@@ -65,14 +271,33 @@ def run(rep, tier, seed, workers):
                            workers, seed, split=3)
         states += len(fps)
         rep.bounds['%s depth' % kind] = depth if kind == 'M' else depth - 1
-    rep.cov['states'] = max(states, 1)
+    # refused joins
+    from mc import par
+    jd = 6 if tier == 'quick' else 8
+    before = rep.cov.get('states', 0)
+    tasks = []
+    for explicit in (True, False):
+        w = JoinWorld(explicit)
+        first = w.enabled()
+        w.close()
+        for op in first:
+            tasks.append((MOD, 'join_subtree', (explicit, [list(op)], jd)))
+    par.run_tasks(tasks, workers, rep, seed)
+    rep.bounds['refused-join family depth'] = jd
+    rep.cov['states'] = max(states, 1) + rep.cov.get('states', 0) - before
     rep.assumptions = [
         'the in-memory attributes of an object that belongs to no database '
         '(never added, or un-added by abort / rollback) are not compared']
 
 
 def replay(w):
-    viol = seqx.replay_history(MOD, w['witness'])
+    if 'join' in w['witness']:
+        j = w['witness']['join']
+        r = join_subtree(j['explicit'], j['history'], len(j['history']))
+        viol = [(v[0].split('.', 1)[1], v[1].split(':', 1)[1], v[3])
+                for v in r['violations']]
+    else:
+        viol = seqx.replay_history(MOD, w['witness'])
     for v in viol:
         print(v)
     sigs = {'C11.%s:%s' % (c, s) for c, s, d in viol}
